@@ -1080,12 +1080,12 @@ struct Gen {
       op.setu("h", r.below(refs.size()));
     } else if (sel < 905) {
       op = mkop("doc");
-      static const char* whats[] = {"clear", "shrink", "copy", "move", "swap", "cctor", "mctor", "new", "set", "shrink", "copy", "set"};
-      std::string w = whats[r.below(12)];
-      if (sim.ndocs() == 1 && (w == "move" || w == "swap" || w == "cctor" || w == "mctor"))
+      static const char* whats[] = {"clear", "shrink", "copy", "move", "swap", "cctor", "mctor", "new", "set", "shrink", "copy", "set", "fromv"};
+      std::string w = whats[r.below(13)];
+      if (sim.ndocs() == 1 && (w == "move" || w == "swap" || w == "cctor" || w == "mctor" || w == "fromv"))
         w = "shrink";
       op.set("what", w).setu("d", r.below(uint64_t(sim.ndocs()))).setu("s", r.below(uint64_t(sim.ndocs())));
-      if (w == "set")
+      if (w == "set" || w == "fromv")
         op.setu("src", pickRef());
       via(2);
     } else if (sel < 950) {
